@@ -176,6 +176,10 @@ func relayout(t *rapid.T, p *pg.Prog) *pg.Prog {
 		q.PkgDoc = []string{"Package home is documented."}
 	}
 	q.OldTag = rapid.Bool().Draw(t, "oldtag")
+	q.GoGenerateAtPackage = rapid.IntRange(0, 3).Draw(t, "goGenAtPackage") == 0
+	for _, m := range q.AllMethods() {
+		m.TogglesLast = rapid.Bool().Draw(t, "togglesLast")
+	}
 	return &q
 }
 
